@@ -76,6 +76,36 @@ if os.environ.get("ISODATETIME_VERIF") == "1" and os.environ.get("ISODATETIME_VE
         EVENTS.append({"op": "SetMode", "cid": 0, "sp": str(mode) if mode else "gregorian"})
         return res
 
+    _dadd, _dmul, _deq = Duration.__add__, Duration.__mul__, Duration.__eq__
+
+    def dadd(self, other):
+        STATE["depth"] += 1
+        try:
+            res = _dadd(self, other)
+        finally:
+            STATE["depth"] -= 1
+        if STATE["depth"] == 0 and "DurOp1" in KINDS and type(self) is Duration and type(other) is Duration and type(res) is Duration:
+            emit({"op": "DurOp1", "cid": 0, "k": "add", "a": proj_dur(self), "b": proj_dur(other), "n": 0, "r": proj_dur(res), "res": False})
+        return res
+
+    def dmul(self, other):
+        STATE["depth"] += 1
+        try:
+            res = _dmul(self, other)
+        finally:
+            STATE["depth"] -= 1
+        if STATE["depth"] == 0 and "DurOp1" in KINDS and type(self) is Duration and isinstance(other, int) and type(res) is Duration \
+                and abs(other) < 1000:
+            emit({"op": "DurOp1", "cid": 0, "k": "mul", "a": proj_dur(self), "b": proj_dur(self), "n": other, "r": proj_dur(res), "res": False})
+        return res
+
+    def deq(self, other):
+        res = _deq(self, other)
+        if STATE["depth"] == 0 and "DurOp1" in KINDS and type(self) is Duration and type(other) is Duration and isinstance(res, bool):
+            emit({"op": "DurOp1", "cid": 0, "k": "eq", "a": proj_dur(self), "b": proj_dur(other), "n": 0, "r": proj_dur(self), "res": res})
+        return res
+
+    Duration.__add__, Duration.__mul__, Duration.__rmul__, Duration.__eq__ = dadd, dmul, dmul, deq
     TimePoint.__add__, TimePoint.__sub__, TimePoint._cmp, Calendar.set_mode = add, sub, cmp, set_mode
     # Duration.__add__(TimePoint) delegates to TimePoint.__add__: covered.
 
